@@ -2,7 +2,7 @@
    This file contains only the property theorems; each is closed by an exact lemma. *)
 From Coq Require Import String ZArith List Bool.
 From PB Require Import C01.Wrapper C16.SigTable C16.Bind C16.BindProofs C16.Model C16.Proofs
-  C16.PerPoint C16.PerPointProofs C16.InnerProofs C16.MethodCase C16.MethodCaseProofs gen.GenSigs C16.TableProofs.
+  C16.PerPoint C16.PerPointProofs C16.InnerProofs C16.MethodCase C16.MethodCaseProofs C16.ArrayParams C16.ArrayParamsProofs gen.GenSigs C16.TableProofs.
 Import ListNotations.
 Open Scope Z_scope.
 
@@ -286,6 +286,53 @@ Theorem C16_method_name_raw_refuted :
   use_ok c = false /\ eval_use c "FABC" <> eval_use c "fabc" /\ lower "FABC" = lower "fabc".
 Proof. exact raw_compare_refuted. Qed.
 Print Assumptions C16_method_name_raw_refuted.
+
+(* ---- every per-point array parameter reaches a validator that imposes its dtype ---- *)
+
+(* table condition -> every use of the caller's array (weights / alpha, or a plain alias of it, outside the branches
+   that only run when None was passed) goes to a _setup_* function of the checked `setups` table or to
+   _check_optional_array(..., dtype=float|bool); the reviewed exceptions are listed in C16/ArrayParams.v *)
+Theorem C16_array_param_routes : forall setups a,
+  aparam_ok setups a = true -> is_reviewed a = false ->
+  ap_routes a <> [] /\ forall r, In r (ap_routes a) ->
+    exists t, route_dtype setups (ap_two_d a) r = Some t /\ (t = WFloat \/ t = WBool).
+Proof. exact aparam_routes_impose. Qed.
+Print Assumptions C16_array_param_routes.
+
+Theorem C16_array_param_setup_route : forall setups two_d n t,
+  route_dtype setups two_d (RSetup n) = Some t ->
+  exists e, In e setups /\ su_two_d e = two_d /\ su_name e = n /\ setup_ok e = true /\ su_dtype e = t.
+Proof. exact setup_route_entry. Qed.
+Print Assumptions C16_array_param_setup_route.
+
+(* the table of all registered methods of the current source passes *)
+Theorem C16_array_param_table : array_params_ok setups array_params = true.
+Proof. exact array_params_checked. Qed.
+Print Assumptions C16_array_param_table.
+
+Theorem C16_array_param_table_sound : forall a, In a array_params -> is_reviewed a = false ->
+  ap_routes a <> [] /\ forall r, In r (ap_routes a) ->
+    exists t, route_dtype setups (ap_two_d a) r = Some t /\ (t = WFloat \/ t = WBool).
+Proof. exact table_array_params. Qed.
+Print Assumptions C16_array_param_table_sound.
+
+(* once the dtype is imposed by the validator, the dtype tag of the caller's container is not an input *)
+Theorem C16_container_dtype_irrelevant : forall (e : setup_entry) size svd (d : desc Z) (t : dtype),
+  setup_weights e size svd (as_nd d)
+  = setup_weights e size svd (as_nd {| d_cont := d_cont d; d_layout := d_layout d; d_dtype := t;
+                                       d_shape := d_shape d; d_mem := d_mem d |}).
+Proof. exact container_dtype_irrelevant. Qed.
+Print Assumptions C16_container_dtype_irrelevant.
+
+(* arrays travelling inside method_kwargs of the optimizers are shape-normalised by _check_optional_array before any array
+   operation of the optimizer (np.pad, indexing), or are values the optimizer computed itself *)
+Theorem C16_kwargs_loads_table : kwargs_loads_ok kwargs_loads = true.
+Proof. exact kwargs_loads_checked. Qed.
+Print Assumptions C16_kwargs_loads_table.
+
+Theorem C16_kwargs_loads_table_sound : forall k, In k kwargs_loads -> kl_use k <> KwUnknown.
+Proof. exact table_kwargs_loads. Qed.
+Print Assumptions C16_kwargs_loads_table_sound.
 
 (* ---- hypotheses are satisfiable ---- *)
 Open Scope string_scope.
